@@ -34,12 +34,12 @@ class _Conn(object):
 
 class _Pool(object):
     def __init__(self, provider_name): self.provider_name = provider_name
-    def connect(self): return _Conn(True if self.provider_name == 'postgres' else None), True
+    def connect(self): return _Conn(True if self.provider_name in ('postgres', 'cockroach') else None), True
     def release(self, con): pass
     def drop(self, con): pass
     def disconnect(self): pass
 
-_VERSIONS = dict(sqlite=(3, 40, 1), postgres=160000, mysql=(10, 11, 0), oracle=(12, 2, 0))
+_VERSIONS = dict(sqlite=(3, 40, 1), postgres=160000, mysql=(10, 11, 0), oracle=(12, 2, 0), cockroach=160000)
 
 def capture_database(provider_name, json1=True):
     """A pony Database bound to the real provider class of `provider_name` over a mock pool.
@@ -285,12 +285,19 @@ def udfs(dialect):
 
 class Substrate(object):
     """SQLite connection with a dialect's function models registered."""
-    def __init__(self, dialect, con=None):
+    def __init__(self, dialect, con=None, extended=False):
         self.dialect = dialect
         self.con = con or sqlite3.connect(':memory:')
         self.error = None
+        self.extended = extended
         for name, nargs, f in udfs(dialect):
             self.con.create_function(name, nargs, self._wrap(f))
+        if extended:         # C02: further function models + token-level rewrites (see the extension section below)
+            ext = udfs_extended(dialect, self)
+            self.modelled = set(n for n, _, _ in udfs(dialect)) | set(n for n, _, _ in ext)
+            self._texts = {}
+            for name, nargs, f in ext:
+                self.con.create_function(name, nargs, self._wrap(f))
     def _wrap(self, f):
         def g(*a):
             try: return f(*a)
@@ -301,6 +308,7 @@ class Substrate(object):
     def execute(self, sql, args, paramstyle):
         """Returns rows; raises Undecided, or DialectError when the *model function* refuses
         (e.g. negative substring length on PostgreSQL) which a live server would report."""
+        if self.extended: return self.execute_extended(sql, args, paramstyle)
         sql = rewrite_for_substrate(sql, self.dialect)
         sql, args = bind_placeholders(sql, args, paramstyle)
         self.error = None
@@ -310,6 +318,428 @@ class Substrate(object):
             if isinstance(self.error, Undecided): raise self.error
             if self.error is not None: raise DialectError(str(self.error))
             raise Undecided('substrate cannot execute: %s' % e)
+    def substrate_text(self, sql, args, paramstyle):
+        """the statement as it is run on SQLite (extended mode): binder model, lexical model, closed rewrite list,
+        closed function list. Raises Undecided / DialectError."""
+        key = (sql, paramstyle, args is None)
+        r = self._texts.get(key)
+        if r is None:
+            try:
+                text, _ = bind_placeholders(sql, args, paramstyle)
+                toks = rewrite_tokens(tokens(text, self.dialect), self.dialect)
+                check_functions(toks, self.dialect, self.modelled)
+                r = untokens(toks)
+            except (Undecided, DialectError) as e: r = e
+            if len(self._texts) > 20000: self._texts.clear()
+            self._texts[key] = r
+        if isinstance(r, Exception): raise r
+        return r
+    def execute_extended(self, sql, args, paramstyle):
+        """rows of a SELECT (None for other statements). `args` may be a list of argument objects (executemany)."""
+        many = isinstance(args, list)
+        text = self.substrate_text(sql, args[0] if many and args else (None if many else args), paramstyle)
+        rows = None
+        for a in (args if many else [args]):
+            _, vals = bind_placeholders(sql, a, paramstyle)
+            vals = tuple(adapt_value(v, self.dialect) for v in vals)
+            self.error = None
+            try:
+                cur = self.con.execute(text, vals)
+                rows = cur.fetchall() if cur.description is not None else None
+            except sqlite3.Error as e:
+                if isinstance(self.error, Undecided): raise self.error
+                if self.error is not None: raise DialectError('%s: %s' % (type(self.error).__name__, self.error))
+                raise NotExecutable('substrate cannot execute: %s' % e)
+        return rows
 
 class DialectError(Exception):
     """The dialect model says the server would reject the statement at run time."""
+
+# ==================================================================================================
+# Extension used by C02 (additive: active only for Substrate(dialect, extended=True); the plain
+# Substrate / rewrite_for_substrate / udfs above are what C25 uses and are unchanged).
+#
+# Pipeline of Substrate.execute in extended mode:
+#   1. bind_placeholders (PEP 249 model)                         -> qmark text + driver-adapted values
+#   2. tokens(): lexical model of the dialect                      (anything else -> Undecided)
+#   3. rewrite_tokens(): the CLOSED list of token rewrites         (anything else -> Undecided)
+#   4. check_functions(): every function name must be in the closed list of the dialect
+#   5. execution on SQLite with the dialect's function models registered as UDFs
+# A function model may raise (-> DialectError: a live server would reject the statement at run
+# time) or set an undecided flag (-> Undecided: the documented answer depends on something the model
+# does not fix: collation, locale).
+#
+# Value encoding: PostgreSQL has a genuine boolean type with no implicit cast from/to integer
+# (manual 8.6 "Boolean Type"; `boolean = integer` is "operator does not exist"). SQLite has none, so
+# PostgreSQL's TRUE is encoded on the substrate as the sentinel integer PG_TRUE (truthy, equal to no
+# integer the data or the queries contain) and FALSE as 0: an integer 1 rendered where PostgreSQL
+# expects a boolean never equals a stored TRUE.
+PG_TRUE = 7777777
+
+class Flag(Undecided):
+    """raised inside a function model: the documented answer depends on something the model does not fix"""
+
+class NotExecutable(Undecided):
+    """the rewritten text does not run on the substrate (SQLite reports a syntax / semantic error)"""
+
+_TOKEN = re.compile(r"""(?P<ws>\s+)|(?P<str>'(?:[^']|'')*')|(?P<qid>"(?:[^"]|"")*"|`[^`]*`)
+    |(?P<num>(?:\d+\.\d*|\.\d+|\d+)(?:[eE][+-]?\d+)?)|(?P<word>[A-Za-z_][A-Za-z_0-9]*)
+    |(?P<op>::|\|\||<>|<=|>=|!=|[-+*/%=<>(),.?])""", re.X)
+
+def tokens(sql, dialect):
+    """[(kind, text)] without whitespace; kinds: str qid num word op"""
+    out, i, n = [], 0, len(sql)
+    while i < n:
+        m = _TOKEN.match(sql, i)
+        if m is None: raise Undecided('character outside the lexical model: %r' % sql[i:i + 8])
+        i = m.end()
+        k = m.lastgroup
+        if k == 'ws': continue
+        t = m.group(k)
+        if k == 'str' and dialect == 'mysql' and '\\' in t:
+            raise Undecided('backslash inside a MySQL string literal (escape processing not modelled)')
+        if k == 'qid' and t[0] == '`':
+            if dialect != 'mysql': raise Undecided('back-quoted name outside MySQL')
+            t = '"' + t[1:-1].replace('"', '""') + '"'
+        elif k == 'qid' and dialect == 'mysql':
+            raise Undecided('double-quoted token in MySQL text (a string unless ANSI_QUOTES)')
+        out.append((k, t))
+    return out
+
+def untokens(toks):
+    return ' '.join(t for _, t in toks)
+
+def _close(toks, i):
+    """toks[i] is '(' -> index of the matching ')'"""
+    depth = 0
+    for j in range(i, len(toks)):
+        t = toks[j][1]
+        if toks[j][0] == 'op':
+            if t == '(': depth += 1
+            elif t == ')':
+                depth -= 1
+                if depth == 0: return j
+    raise Undecided('unbalanced parentheses')
+def _open(toks, j):
+    """toks[j] is ')' -> index of the matching '('"""
+    depth = 0
+    for i in range(j, -1, -1):
+        t = toks[i][1]
+        if toks[i][0] == 'op':
+            if t == ')': depth += 1
+            elif t == '(':
+                depth -= 1
+                if depth == 0: return i
+    raise Undecided('unbalanced parentheses')
+def _top_level(toks, lo, hi, pred):
+    """indexes lo <= k < hi at parenthesis depth 0 whose token satisfies pred"""
+    out, depth = [], 0
+    for k in range(lo, hi):
+        kind, t = toks[k]
+        if kind == 'op' and t == '(': depth += 1
+        elif kind == 'op' and t == ')': depth -= 1
+        elif depth == 0 and pred(kind, t): out.append(k)
+    return out
+def _w(t): return ('word', t)
+def _is(tok, kind, text): return tok[0] == kind and tok[1].upper() == text
+
+_PG_CAST_TYPES = {('INT',): 'pg_to_int', ('TEXT',): 'pg_to_text', ('DOUBLE', 'PRECISION'): 'pg_to_real'}
+_MY_CAST_TYPES = {'SIGNED': 'my_to_int', 'CHAR': 'my_to_char', 'DOUBLE': 'my_to_double'}
+_TRIM_KINDS = ('BOTH', 'LEADING', 'TRAILING')
+_PARTS = ('YEAR', 'MONTH', 'DAY')
+MYSQL_NO_LIMIT = '18446744073709551615'
+
+def rewrite_tokens(toks, dialect):
+    """the closed list of token rewrites (C02). Everything is done on the token list, so string
+    literals and quoted names are never touched."""
+    toks = list(toks)
+    # (expr)::int | ::text | ::double precision      PostgreSQL casts in the parenthesised form Pony emits
+    while dialect == 'postgres':
+        ks = [k for k, t in enumerate(toks) if t == ('op', '::')]
+        if not ks: break
+        k = ks[0]
+        if k == 0 or toks[k - 1] != ('op', ')'): raise Undecided('cast outside the closed list (operand not parenthesised)')
+        ty = None
+        for words, fn in _PG_CAST_TYPES.items():
+            if tuple(t[1].upper() for t in toks[k + 1:k + 1 + len(words)] if t[0] == 'word') == words:
+                if ty is None or len(words) > len(ty[0]): ty = (words, fn)
+        if ty is None: raise Undecided('cast outside the closed list: ::%s' % (toks[k + 1][1] if k + 1 < len(toks) else ''))
+        start = _open(toks, k - 1)
+        toks[k:k + 1 + len(ty[0])] = []
+        toks.insert(start, _w(ty[1]))
+    # CAST(expr AS SIGNED|CHAR|DOUBLE)               MySQL casts
+    while True:
+        ks = [k for k, t in enumerate(toks) if _is(t, 'word', 'CAST') and k + 1 < len(toks) and toks[k + 1] == ('op', '(')]
+        if not ks: break
+        if dialect != 'mysql': raise Undecided('CAST() outside the closed list')
+        k = ks[-1]                                   # innermost-last first keeps indexes valid
+        end = _close(toks, k + 1)
+        if end - 2 <= k + 1 or not _is(toks[end - 2], 'word', 'AS') or toks[end - 1][0] != 'word':
+            raise Undecided('cast outside the closed list: shape')
+        fn = _MY_CAST_TYPES.get(toks[end - 1][1].upper())
+        if fn is None: raise Undecided('cast outside the closed list: AS %s' % toks[end - 1][1])
+        toks[end - 2:end] = []
+        toks[k] = _w(fn)
+    # a || b                                         MySQL 12.4.3 / 5.1.11 sql_mode: "|| is a synonym for OR" unless PIPES_AS_CONCAT is enabled
+    if dialect == 'mysql':
+        toks = [_w('OR') if t == ('op', '||') else t for t in toks]
+    # DATE 'yyyy-mm-dd'                               standard SQL date literal (PostgreSQL 8.5.1.1, MySQL 9.1.3) -> ISO text, the
+    #                                                substrate's representation of a DATE
+    k = 0
+    while k < len(toks) - 1:
+        if _is(toks[k], 'word', 'DATE') and toks[k + 1][0] == 'str':
+            if not re.fullmatch(r"'\d{4}-\d{2}-\d{2}'", toks[k + 1][1]): raise Undecided('date literal outside the closed list')
+            del toks[k]
+        k += 1
+    # true / false                                   PostgreSQL boolean literals (see PG_TRUE above)
+    if dialect == 'postgres':
+        for k, t in enumerate(toks):
+            if _is(t, 'word', 'TRUE'): toks[k] = ('num', str(PG_TRUE))
+            elif _is(t, 'word', 'FALSE'): toks[k] = ('num', '0')
+    # trim(both|leading|trailing X from Y)           MySQL / standard SQL form -> dm_trim_<kind>(X, Y)
+    # EXTRACT(YEAR|MONTH|DAY FROM X)                 standard SQL form        -> dm_year(X) ...
+    changed = True
+    while changed:
+        changed = False
+        for k in range(len(toks) - 2):
+            if toks[k][0] != 'word' or toks[k + 1] != ('op', '('): continue
+            name = toks[k][1].upper()
+            if name == 'TRIM' and toks[k + 2][0] == 'word' and toks[k + 2][1].upper() in _TRIM_KINDS:
+                end = _close(toks, k + 1)
+                fr = _top_level(toks, k + 3, end, lambda kind, t: kind == 'word' and t.upper() == 'FROM')
+                if len(fr) != 1 or fr[0] == k + 3: raise Undecided('trim(... from ...) shape outside the closed list')
+                toks[fr[0]] = ('op', ',')
+                toks[k] = _w('dm_trim_' + toks[k + 2][1].lower())
+                del toks[k + 2]
+                changed = True; break
+            if name == 'EXTRACT':
+                if not (toks[k + 2][0] == 'word' and toks[k + 2][1].upper() in _PARTS and _is(toks[k + 3], 'word', 'FROM')):
+                    raise Undecided('EXTRACT field outside the closed list')
+                toks[k] = _w('dm_' + toks[k + 2][1].lower())
+                del toks[k + 2:k + 4]
+                changed = True; break
+    # COUNT(DISTINCT (a, b)) / COUNT(DISTINCT a, b)  row counting forms -> COUNT(DISTINCT dm_row(a, b))
+    k = 0
+    while k < len(toks) - 3:
+        if _is(toks[k], 'word', 'COUNT') and toks[k + 1] == ('op', '(') and _is(toks[k + 2], 'word', 'DISTINCT'):
+            end = _close(toks, k + 1)
+            if dialect == 'postgres' and toks[k + 3] == ('op', '(') and _close(toks, k + 3) == end - 1 \
+                    and _top_level(toks, k + 4, end - 1, lambda kind, t: (kind, t) == ('op', ',')):
+                toks.insert(k + 3, _w('dm_row'))
+            elif dialect == 'mysql' and _top_level(toks, k + 3, end, lambda kind, t: (kind, t) == ('op', ',')):
+                toks.insert(end, ('op', ')')); toks[k + 3:k + 3] = [_w('dm_row'), ('op', '(')]
+        k += 1
+    # LIMIT / OFFSET
+    ks = [k for k, t in enumerate(toks) if _is(t, 'word', 'LIMIT')]
+    for k in ks:
+        if k + 1 >= len(toks): raise DialectError('LIMIT without a count')
+        arg = toks[k + 1]
+        if dialect == 'postgres':
+            # manual, SELECT / LIMIT clause: "LIMIT ALL is the same as omitting the LIMIT clause, as is LIMIT with a NULL argument";
+            # a negative count is rejected ("LIMIT must not be negative")
+            if _is(arg, 'word', 'NULL') or _is(arg, 'word', 'ALL'): toks[k + 1] = ('num', '-1')
+            elif arg[0] != 'num' or not arg[1].isdigit(): raise DialectError('PostgreSQL: LIMIT %s is rejected' % arg[1])
+        elif dialect == 'mysql':
+            # manual 13.2.13 SELECT: LIMIT takes nonnegative integer constants; "to retrieve all rows from a certain offset up to
+            # the end of the result set, you can use some large number": 18446744073709551615
+            if arg[0] != 'num' or not arg[1].isdigit(): raise DialectError('MySQL: LIMIT %s is a syntax error' % arg[1])
+            if arg[1] == MYSQL_NO_LIMIT: toks[k + 1] = ('num', '-1')
+            elif int(arg[1]) >= 2 ** 63: raise Undecided('LIMIT count beyond the substrate integer range')
+    for k, t in enumerate(toks):
+        if _is(t, 'word', 'OFFSET'):
+            if dialect == 'mysql' and not (k >= 2 and _is(toks[k - 2], 'word', 'LIMIT')):
+                raise DialectError('MySQL: OFFSET without LIMIT is a syntax error')
+            if k + 1 >= len(toks) or toks[k + 1][0] != 'num' or not toks[k + 1][1].isdigit():
+                raise DialectError('%s: OFFSET argument is rejected' % dialect)
+    return toks
+
+_KEYWORDS = set('''SELECT DISTINCT ALL FROM WHERE AND OR NOT IN IS NULL LIKE ESCAPE BETWEEN CASE WHEN THEN ELSE END AS ON JOIN LEFT
+INNER OUTER CROSS GROUP BY HAVING ORDER ASC DESC LIMIT OFFSET EXISTS VALUES INSERT INTO UPDATE SET DELETE UNION'''.split())
+# functions of the closed list. 'b' = SQLite built-in whose documented behaviour coincides with the dialect's on the fragment:
+#   coalesce / nullif (SQL standard; PostgreSQL 9.18, MySQL 12.4/12.5), abs (NULL for NULL, exact for integers and doubles),
+#   replace(s, from, to) (all three: every occurrence, case-sensitive match; unchanged for an empty `from`; NULL if any argument is NULL),
+#   count / sum / avg / min / max as one-argument aggregates (NULLs ignored; sum and avg of no rows are NULL)
+_BUILTIN_OK = ('coalesce', 'nullif', 'abs', 'replace', 'count', 'sum', 'avg', 'min', 'max')
+_AGG1 = ('sum', 'avg', 'min', 'max')
+
+def check_functions(toks, dialect, modelled):
+    for k in range(len(toks) - 1):
+        if toks[k][0] != 'word' or toks[k + 1] != ('op', '('): continue
+        name = toks[k][1]
+        if name.upper() in _KEYWORDS: continue
+        low = name.lower()
+        if low not in modelled and low not in _BUILTIN_OK:
+            raise Undecided('function outside the closed list: %s' % low)
+        if low in _AGG1:
+            end = _close(toks, k + 1)
+            if _top_level(toks, k + 2, end, lambda kind, t: (kind, t) == ('op', ',')):
+                # SQLite would run min(a, b) / max(a, b) as scalar functions; PostgreSQL and MySQL have one-argument aggregates only
+                raise DialectError('%s: %s() with more than one argument does not exist' % (dialect, low))
+    for k, (kind, t) in enumerate(toks):
+        if kind == 'word' and t.upper() not in _KEYWORDS and not (k + 1 < len(toks) and toks[k + 1] == ('op', '(')):
+            raise Undecided('bare word outside the closed list: %s' % t)
+        if kind == 'op' and t == '!=': raise Undecided('operator outside the closed list: !=')
+
+# ---- further documented function semantics -----------------------------------------------------------
+def _trim_set(kind):
+    """PostgreSQL 9.4: btrim/ltrim/rtrim(string [, characters]) "removes the longest string containing only
+    characters in `characters` (a space by default)"; trim(string, characters) is the non-standard spelling of btrim."""
+    def f(s, chars=' '):
+        if s is None or chars is None: return None
+        if kind in ('both', 'leading'):
+            i = 0
+            while i < len(s) and s[i] in chars: i += 1
+            s = s[i:]
+        if kind in ('both', 'trailing'):
+            j = len(s)
+            while j > 0 and s[j - 1] in chars: j -= 1
+            s = s[:j]
+        return s
+    return f
+def _trim_str(kind):
+    """MySQL 12.8 TRIM([{BOTH | LEADING | TRAILING} [remstr] FROM] str): "all remstr prefixes or suffixes removed" - remstr
+    is a *string*, not a set of characters; ltrim/rtrim/trim(str) remove spaces. Called as (remstr, str)."""
+    def f(rem, s):
+        if s is None or rem is None: return None
+        if rem == '': return s
+        if kind in ('both', 'leading'):
+            while s.startswith(rem): s = s[len(rem):]
+        if kind in ('both', 'trailing'):
+            while s.endswith(rem): s = s[:-len(rem)]
+        return s
+    return f
+def _spaces(kind):
+    g = _trim_set(kind)
+    return lambda s: g(s, ' ')
+
+def _like_regex(pattern, esc, dialect):
+    out, i, n = [], 0, len(pattern)
+    while i < n:
+        c = pattern[i]
+        if esc and c == esc:
+            if i + 1 >= n:
+                # PostgreSQL 9.7.1: "LIKE pattern must not end with escape character" (error 22025); MySQL matches the escape itself
+                if dialect == 'postgres': raise ValueError('LIKE pattern must not end with escape character')
+                out.append(re.escape(c)); i += 1; continue
+            out.append(re.escape(pattern[i + 1])); i += 2; continue
+        out.append('.*' if c == '%' else ('.' if c == '_' else re.escape(c)))
+        i += 1
+    return ''.join(out)
+def _fold(s):
+    import unicodedata
+    return ''.join(c for c in unicodedata.normalize('NFKD', s) if not unicodedata.combining(c)).casefold()
+def _like(sub, dialect):
+    """x LIKE pattern [ESCAPE e] is like(pattern, x[, e]) in SQLite, so a UDF named `like` redefines the operator.
+    PostgreSQL 9.7.1: `_` one character, `%` any sequence, whole string must match, case-sensitive, "the default escape
+    character is the backslash"; ESCAPE '' disables escaping. MySQL 12.8.1: same wildcards, default escape `\\`; the match is
+    case-insensitive unless an operand is a binary string, i.e. it follows the collation: the answer is model-decided only when
+    the case/accent-insensitive and the exact match agree."""
+    def f(pattern, s, esc='\\'):
+        if pattern is None or s is None or esc is None: return None
+        if not isinstance(pattern, str) or not isinstance(s, str): raise Flag('LIKE on non-string operands')
+        if len(esc) > 1: raise ValueError('invalid escape string')
+        r = re.compile(_like_regex(pattern, esc, dialect), re.S).fullmatch(s) is not None
+        if dialect == 'mysql':
+            r2 = re.compile(_like_regex(_fold(pattern), _fold(esc), dialect), re.S).fullmatch(_fold(s)) is not None
+            if r != r2: raise Flag('collation: MySQL LIKE is case/accent-insensitive under the default collation')
+        return 1 if r else 0
+    return f
+def _case_map(fn):
+    """PostgreSQL 9.4 upper/lower: "according to the rules of the database's locale"; MySQL 12.8: according to the current
+    character set mapping. Decided for ASCII; a non-ASCII cased character makes the answer locale dependent."""
+    def f(s):
+        if s is None: return None
+        r = fn(s)
+        if any(ord(c) > 127 and a != c for c, a in zip(s, r)) or len(r) != len(s): raise Flag('locale: case mapping of non-ASCII characters')
+        return r
+    return f
+def _power(dialect):
+    """PostgreSQL 9.3 power(a, b) (double precision for integer/double arguments); errors: "zero raised to a negative power is
+    undefined", "a negative number raised to a non-integer power yields a complex result". MySQL 12.6.2 POW(X, Y)."""
+    def f(a, b):
+        if a is None or b is None: return None
+        try:
+            r = float(a) ** float(b)
+            if isinstance(r, complex): raise ValueError('a negative number raised to a non-integer power yields a complex result')
+        except (ZeroDivisionError, OverflowError, ValueError) as e:
+            if dialect == 'postgres': raise ValueError('power(%r, %r): %s' % (a, b, e))
+            raise Flag('MySQL POW domain/range error (NULL or error depending on version and sql_mode)')
+        return r
+    return f
+def _date_part(lo, hi):
+    """PostgreSQL 9.9.1 EXTRACT(YEAR|MONTH|DAY FROM date); MySQL 12.7 YEAR()/MONTH()/DAY(): calendar fields of a DATE.
+    Dates live on the substrate as ISO-8601 text."""
+    def f(d):
+        if d is None: return None
+        if not isinstance(d, str) or not re.fullmatch(r'\d{4}-\d{2}-\d{2}', d): raise Flag('date part of a non-date value')
+        return int(d[lo:hi])
+    return f
+def _my_length_bytes(s):
+    """MySQL 12.8 LENGTH(str): "the length of the string str, measured in bytes. A multibyte character counts as multiple
+    bytes"; CHAR_LENGTH counts characters. Bytes are counted in utf8/utf8mb4 (the connection charset Pony's provider requests)."""
+    if s is None: return None
+    if isinstance(s, str): return len(s.encode('utf-8'))
+    return len(str(s))
+def _round_tie(x, dialect):
+    """float -> integer. PostgreSQL 8.1 / 9.3: casting to integer rounds to nearest; "for numeric, ties are broken by rounding away
+    from zero. For double precision, the tie-breaking behavior is platform dependent, but round to nearest even is the most common
+    rule". MySQL 12.25.4 (rounding behaviour): exact values round half away from zero, approximate values depend on the C library
+    (rint(): half to even). The substrate cannot tell NUMERIC from DOUBLE, so a tie is decided only when both rules agree."""
+    import math
+    if x != x or x in (float('inf'), float('-inf')): raise Flag('cast of a non-finite value')
+    lo = math.floor(x)
+    if x - lo != 0.5: return int(math.floor(x + 0.5))
+    even = int(lo) if int(lo) % 2 == 0 else int(lo) + 1
+    away = int(lo) + 1 if x > 0 else int(lo)
+    if even != away: raise Flag('cast to integer of a tie (x.5): half-to-even or half-away-from-zero depending on type and platform')
+    return even
+def _pg_to_int_ext(x):
+    if isinstance(x, int) and x == PG_TRUE: return 1      # boolean -> integer cast: true is 1 (PostgreSQL 8.6 / CREATE CAST boolean::int4)
+    if isinstance(x, float): return _round_tie(x, 'postgres')
+    return _pg_to_int(x)
+def _my_to_int_ext(x):
+    if isinstance(x, float): return _round_tie(x, 'mysql')
+    return _my_to_int(x)
+def _row(dialect):
+    """COUNT(DISTINCT ...) over several expressions. PostgreSQL: COUNT(DISTINCT ROW(a, b)) counts the distinct row values; a row
+    constructor is a non-null composite value even when its fields are NULL (4.2.13, 9.21: count(expression) counts non-null
+    inputs). MySQL 12.19.1 COUNT(DISTINCT expr, [expr...]): "the number of rows with different non-NULL expr values": a
+    combination containing a NULL is not counted."""
+    def f(*a):
+        if dialect == 'mysql' and any(x is None for x in a): return None
+        for x in a:
+            if isinstance(x, str) and dialect == 'mysql': raise Flag('collation: MySQL string equality')
+        return repr(tuple((type(x).__name__ if not isinstance(x, (int, float)) else 'n', float(x) if isinstance(x, (int, float)) else x) for x in a))
+    return f
+
+def udfs_extended(dialect, sub=None):
+    """function models added for C02, on top of udfs(dialect)"""
+    if dialect == 'postgres':
+        return [('trim', 1, _spaces('both')), ('ltrim', 1, _spaces('leading')), ('rtrim', 1, _spaces('trailing')),
+                ('trim', 2, _trim_set('both')), ('ltrim', 2, _trim_set('leading')), ('rtrim', 2, _trim_set('trailing')),
+                ('btrim', 1, _spaces('both')), ('btrim', 2, _trim_set('both')),
+                ('like', 2, _like(sub, dialect)), ('like', 3, _like(sub, dialect)),
+                ('upper', 1, _case_map(str.upper)), ('lower', 1, _case_map(str.lower)),
+                ('power', 2, _power(dialect)), ('pg_to_int', 1, _pg_to_int_ext),
+                ('dm_year', 1, _date_part(0, 4)), ('dm_month', 1, _date_part(5, 7)), ('dm_day', 1, _date_part(8, 10)),
+                ('dm_row', -1, _row(dialect))]
+    if dialect == 'mysql':
+        return [('trim', 1, _spaces('both')), ('ltrim', 1, _spaces('leading')), ('rtrim', 1, _spaces('trailing')),
+                ('dm_trim_both', 2, _trim_str('both')), ('dm_trim_leading', 2, _trim_str('leading')), ('dm_trim_trailing', 2, _trim_str('trailing')),
+                ('like', 2, _like(sub, dialect)), ('like', 3, _like(sub, dialect)),
+                ('upper', 1, _case_map(str.upper)), ('lower', 1, _case_map(str.lower)),
+                ('power', 2, _power(dialect)), ('pow', 2, _power(dialect)), ('length', 1, _my_length_bytes), ('my_to_int', 1, _my_to_int_ext),
+                ('year', 1, _date_part(0, 4)), ('month', 1, _date_part(5, 7)), ('day', 1, _date_part(8, 10)),
+                ('dm_row', -1, _row(dialect))]
+    return []
+
+def adapt_value(v, dialect):
+    """what reaches the server for a Python value handed to the driver, expressed as a SQLite value: psycopg2 / pymysql
+    render Decimal as a numeric literal, date as an ISO date, bool as true/false (psycopg2) or 1/0 (pymysql)."""
+    import decimal, datetime
+    if isinstance(v, bool): return (PG_TRUE if v else 0) if dialect == 'postgres' else int(v)
+    if v is None or isinstance(v, (int, float, str)): return v
+    if isinstance(v, decimal.Decimal): return float(v)
+    if isinstance(v, datetime.datetime): raise Undecided('datetime parameter')
+    if isinstance(v, datetime.date): return v.isoformat()
+    raise Undecided('parameter of type %s' % type(v).__name__)
